@@ -262,7 +262,7 @@ def gen_c10_runs(rng: Rng, mb, n):
         runs.append(run)
     for side, ev, cl in user_bound_events(mb, n_clients):
         run = new_run(f'unbound-{side}-{ev}-{cl}', origin)
-        run.update({'clients': n_clients, 'client_names': names, 'parent': rng.below(2), 'probes': 1, 'policy': POL_DEFAULT,
+        run.update({'clients': n_clients, 'client_names': names, 'parent': rng.below(2), 'probes': 3, 'policy': POL_DEFAULT,
                     'kind': 'one-unbound', 'unbinds': [[side, ev, cl]]})
         runs.append(run)
     return runs
